@@ -1,5 +1,5 @@
 """Which obligations decide which property, with which assertions."""
-from . import steps, sweep, kernels
+from . import steps, sweep, kernels, product
 
 OPS = ["step.bind", "step.list", "step.allocate", "step.claim", "step.release", "step.open", "step.add",
        "step.close", "step.disconnect"]
@@ -136,3 +136,34 @@ PROPS["C16"] = P(
                  [dict(ob="kernel.blur", params=dict(site=s_), want=["C16."]) for s_ in ("nameplate", "mailbox", "bind")] +
                  [dict(ob="kernel.summarize_mailbox", params=dict(n=2, blur="sym"), want=["C16."]),
                   dict(ob="kernel.summarize_nameplate", params=dict(n=2, blur="sym"), want=["C16."])])
+
+
+PROPS["C06"] = P(
+    "unwinding conditions for non-interference between apps: (local respect) every operation of app A, and "
+    "the sweep per bundle, leaves every row owned by another app unchanged; (output consistency) two-run "
+    "product: same rows for the acting app, two independent arbitrary populations for the other apps, same "
+    "command -> identical frames on the app's connections and identical rows for the app",
+    lambda tier: [dict(ob="prod.isolation", params=dict(tier=tier), want=["C06."])] + all_ops(tier, ["C06."]))
+
+PROPS["C11"] = P(
+    "step bisimulation between a server that kept running (registries may hold idle AppNamespace / Mailbox "
+    "objects left by connections that came and went) and a freshly started one on the same store, with the "
+    "same live connections: every operation (all commands, bind, disconnect, sweep) yields identical frames, "
+    "identical store and related states again (same per-connection protocol state, same subscriptions)",
+    lambda tier: [dict(ob="prod.restart", params=dict(tier=tier), want=["C11."])])
+
+PROPS["C14"] = P(
+    "two-run product: cmd on c1 vs. cmd on c1 followed by the same cmd from a fresh connection of the same "
+    "(app, side) at the same instant, for every successfully answered claim / release / open / close from "
+    "every INV pre-state: same answer, equal channel store (multiset of rows, timestamps included), no frame "
+    "to any original connection, original subscriptions unchanged",
+    lambda tier: [dict(ob="prod.resend", params=dict(tier=tier), want=["C14."])])
+
+PROPS["C18"] = P(
+    "two-run product over configurations on a shared pre-state, command and environment: (listing allowed, "
+    "no usage store, no blur) vs. (listing disallowed, usage store, symbolic blur) [thorough: all five other "
+    "combinations]: identical frames except the payload of `nameplates`, identical channel store, identical "
+    "subscriptions; step(list): exactly the app's names when allowed, [] when disallowed, store unchanged",
+    lambda tier: [dict(ob="prod.config", params=dict(tier=tier), want=["C18."]),
+                  dict(ob="step.list", params=dict(tier=tier), want=["C18."]),
+                  dict(ob="step.list", params=dict(tier=tier, usage="blur"), want=["C18."])])
